@@ -61,6 +61,7 @@ class Engine:
         self.concretised = 0
         self.decided = {}
         self._keep = []
+        self._divcache = {}
 
     def fresh(self, name, sort="int"):
         self.fresh_n += 1
